@@ -207,4 +207,71 @@ def lookupChain (M : Trie) : List Word → List (Option Rec)
           | some i => some (middleRec M om2 i) :: go xs (om2 + 1) (middleRec M om2 i).range
     some u :: go rest 0 u.range
 
+/-! ## exact value of a float32 bit pattern (inf/NaN do not occur in a model; mapped to 0) -/
+
+def f32ToRat (bits : Nat) : Rat :=
+  let e : Nat := bits / 2^23 % 256
+  let m : Nat := bits % 2^23
+  let num : Nat := if e = 255 then 0 else if e = 0 then m else if e ≥ 150 then (2^23 + m) * 2^(e - 150) else 2^23 + m
+  let den : Nat := if e = 255 then 1 else if e = 0 then 2^149 else if e ≥ 150 then 1 else 2^(150 - e)
+  let mag : Rat := (num : Rat) / (den : Rat)
+  if bits / 2^31 % 2 = 1 then -mag else mag
+
+/-! ## a decidable sufficient condition for `Represents` over a finite table -/
+
+/-- finite table: reversed n-grams (real and blank) with their entries -/
+abbrev FT := List (List Word × KV.Table.TEntry)
+
+def tableOf (ft : FT) (order : Nat) : KV.Table.Table := { order := order, lookup := fun g => ft.lookup g }
+
+def idxs (r : Node) : List Nat := List.range' r.1 (r.2 - r.1)
+
+def sortedCheck (key : Nat → Nat) (r : Node) : Bool :=
+  (idxs r).all fun i => (idxs r).all fun j => decide (i ≤ j → key i ≤ key j)
+
+def midKey (M : Trie) (om2 : Nat) : Nat → Nat :=
+  wordAt M.mem (M.middle om2).base (M.middle om2).wordBits (M.middle om2).totalBits
+def longKey (M : Trie) : Nat → Nat := wordAt M.mem M.longest.base M.longest.wordBits M.longest.totalBits
+
+def chkUni (fval : Nat → Rat) (M : Trie) (ft : FT) (rng : List Word → Node) : Bool :=
+  (List.range M.bound).all fun w =>
+    match ft.lookup [w] with
+    | some t => decide (toFound fval (unigramRec M w) = Score.toFound t) && decide ((unigramRec M w).range = rng [w])
+    | none => false
+
+def chkBounds (M : Trie) (order : Nat) : Bool :=
+  (List.range (order - 2)).all (fun om2 => decide (M.bound ≤ (M.middle om2).maxVocab + 1)) && decide (M.bound ≤ M.longest.maxVocab + 1)
+
+/-- the child range of `g`: sorted, and every record is a table entry with the record's values and child range -/
+def chkChildren (fval : Nat → Rat) (M : Trie) (ft : FT) (order : Nat) (rng : List Word → Node) (g : List Word) : Bool :=
+  if 1 ≤ g.length ∧ g.length + 1 < order then
+    let om2 := g.length - 1
+    sortedCheck (midKey M om2) (rng g) &&
+    (idxs (rng g)).all fun i =>
+      match ft.lookup (g ++ [midKey M om2 i]) with
+      | some t => decide (toFound fval (middleRec M om2 i) = Score.toFound t) &&
+                  decide ((middleRec M om2 i).range = rng (g ++ [midKey M om2 i]))
+      | none => false
+  else if 1 ≤ g.length ∧ g.length + 1 = order then
+    sortedCheck (longKey M) (rng g) &&
+    (idxs (rng g)).all fun i =>
+      match ft.lookup (g ++ [longKey M i]) with
+      | some t => decide (fval (longestProbBits M i) = t.prob)
+      | none => false
+  else true
+
+/-- every entry of length ≥ 2 has a record in the child range of its parent -/
+def chkComplete (M : Trie) (order : Nat) (rng : List Word → Node) (g' : List Word) : Bool :=
+  if 2 ≤ g'.length then
+    let g := g'.dropLast
+    let w := g'.getLast?.getD 0
+    if g'.length < order then (idxs (rng g)).any fun i => decide (midKey M (g.length - 1) i = w)
+    else if g'.length = order then (idxs (rng g)).any fun i => decide (longKey M i = w)
+    else false
+  else true
+
+def check (fval : Nat → Rat) (M : Trie) (ft : FT) (order : Nat) (rng : List Word → Node) : Bool :=
+  decide (M.order = order) && chkUni fval M ft rng && chkBounds M order &&
+  ft.all (fun p => chkChildren fval M ft order rng p.1) && ft.all (fun p => chkComplete M order rng p.1)
+
 end KV.TrieLM
